@@ -2914,7 +2914,7 @@ static int bufr_get_ieeefp_compressed
       }
    if (errcode < 0) return errcode;
 
-   if (subset_from > 1)
+   if ((subset_from > 1)&&(nbinc > 0))
       bufr_skip_bits( msg, nbits*(subset_from-1), &errcode );
 
    for (i = 0; i < count ; i++)
@@ -2945,7 +2945,7 @@ static int bufr_get_ieeefp_compressed
          }
       }
 
-   if (subset_from > 0)
+   if ((subset_from > 0)&&(nbinc > 0))
        bufr_skip_bits( msg, nbits*(nbsubset-subset_to), &errcode );
 
    return 1;
